@@ -209,7 +209,23 @@ fn scenario(p: Params) -> ExecResult {
     res
 }
 
+fn params_from(j: &serde_json::Value) -> Params {
+    Params {
+        senders: j["senders"].as_u64().unwrap_or(2) as usize,
+        per_sender: j["per_sender"].as_u64().unwrap_or(1) as usize,
+        fd_sender: j["fd_sender"].as_u64().map(|x| x as usize),
+        pending_budget: j["pending_budget"].as_u64().unwrap_or(1) as usize,
+        api: j["api"].as_bool().unwrap_or(false),
+    }
+}
+
 pub fn main(args: &Args) -> i32 {
+    if let Some(p) = &args.replay {
+        return crate::sched::replay(p, |_, params| {
+            let p = params_from(params);
+            Some(Box::new(move || scenario(p)))
+        });
+    }
     let report = Report::new("C18", args.tier, args.seed, "model_checking");
     let totals = Mutex::new(Totals::default());
     let quick = args.tier == vcommon::Tier::Quick;
